@@ -24,6 +24,9 @@ pub enum Step {
     ListPart,
     /// thousands of metadata-only updates of object n in a row, ending in description o
     Churn(String, Value),
+    /// an ERROR Status event with a code other than 410; when it directly follows a create / modify / delete step it is written to the
+    /// watch connection in the same chunk as that step's change event
+    ErrEvent,
 }
 
 impl Step {
@@ -40,6 +43,7 @@ impl Step {
             "listfail" => Step::ListFail,
             "listpart" => Step::ListPart,
             "churn" => Step::Churn(n, v["o"].clone()),
+            "errevent" => Step::ErrEvent,
             other => panic!("unknown step kind {other}"),
         }
     }
@@ -47,6 +51,7 @@ impl Step {
 
 #[derive(Clone, Debug, PartialEq)]
 enum Cmd {
+    Noise,
     Reset,
     Eof,
     Gone,
@@ -72,6 +77,9 @@ struct State {
     watch_delivered: u64,
     cmd: Option<Cmd>,
     cmds_done: u64,
+    trail_next: bool,                              // the next change event gets an ERROR event behind it, in the same chunk
+    noise_after: std::collections::BTreeSet<u64>,  // resourceVersions of the change events that do
+    noise_riding: bool,                            // the ERROR event of the coming "errevent" step rides on the previous step's event
     t0: Instant,
     reqs: Vec<String>,
 }
@@ -124,7 +132,7 @@ impl Mock {
         let port = l.local_addr().unwrap().port();
         let st = Arc::new(Mutex::new(State {
             ns: ns.to_string(), rv: 97, objs: BTreeMap::new(), log: vec![], list_waiting: 0, list_open: false, lists_since_open: 0, lists_served: 0, list_fail_once: false, list_fails: 0, list_part_once: false, fail_continue: false,
-            gone_next: false, watch_gen: 0, watch_alive: false, watch_delivered: 0, cmd: None, cmds_done: 0, t0: Instant::now(), reqs: vec![],
+            gone_next: false, watch_gen: 0, watch_alive: false, watch_delivered: 0, cmd: None, cmds_done: 0, trail_next: false, noise_after: Default::default(), noise_riding: false, t0: Instant::now(), reqs: vec![],
         }));
         let st2 = st.clone();
         tokio::spawn(async move {
@@ -145,6 +153,11 @@ impl Mock {
     pub fn synced(&self) -> bool {
         let s = self.st.lock().unwrap();
         s.watch_alive && s.caught_up() && s.list_waiting == 0 && !s.gone_next && s.cmd.is_none()
+    }
+
+    /// The change event of the next create / modify / delete step is followed, in the same chunk, by an ERROR event (code 500).
+    pub fn trail_next_event_with_error(&self) {
+        self.st.lock().unwrap().trail_next = true;
     }
 
     /// The client asked for the LIST again and again after it was answered and never went on to watch:
@@ -191,7 +204,18 @@ impl Mock {
                 s.objs.insert(n.clone(), obj.clone());
                 let rv = s.rv;
                 s.log.push((rv, t, obj));
+                if std::mem::take(&mut s.trail_next) {
+                    s.noise_after.insert(rv);
+                    s.noise_riding = true;
+                }
                 Ok(())
+            }
+            Step::ErrEvent => {
+                if std::mem::take(&mut self.st.lock().unwrap().noise_riding) {
+                    return Ok(()); // written together with the previous step's event
+                }
+                self.wait("an established watch", limit, |s| s.watch_alive && s.cmd.is_none()).await?;
+                self.command(Cmd::Noise, limit).await
             }
             Step::Churn(n, o) => {
                 // the metadata flips between the old and the new version CHURN_UPDATES times; the last update is `o`
@@ -217,7 +241,12 @@ impl Mock {
                     // the DELETED event carries the last state of the object at the resourceVersion of the deletion
                     obj["metadata"]["resourceVersion"] = json!(rv.to_string());
                     s.log.push((rv, "DELETED", obj));
+                    if std::mem::take(&mut s.trail_next) {
+                        s.noise_after.insert(rv);
+                        s.noise_riding = true;
+                    }
                 }
+                s.trail_next = false;
                 Ok(())
             }
             Step::List => {
@@ -297,6 +326,19 @@ async fn chunk(s: &mut TcpStream, v: &Value) -> std::io::Result<()> {
     s.flush().await
 }
 
+/// two watch events in ONE chunk (one segment on the wire): both are there when the client looks
+async fn chunk2(s: &mut TcpStream, a: &Value, b: &Value) -> std::io::Result<()> {
+    let body = format!("{a}\n{b}\n");
+    s.write_all(format!("{:x}\r\n{}\r\n", body.len(), body).as_bytes()).await?;
+    s.flush().await
+}
+
+/// an ERROR event the watcher does not re-list for (any code but 410)
+fn error_event() -> Value {
+    json!({"type": "ERROR", "object": {"kind": "Status", "apiVersion": "v1", "metadata": {}, "status": "Failure",
+           "message": "etcdserver: request timed out", "reason": "InternalError", "code": 500}})
+}
+
 const GONE: &str = "too old resource version";
 pub const CHURN_UPDATES: usize = 3000;
 
@@ -359,7 +401,9 @@ async fn serve(mut s: TcpStream, st: Arc<Mutex<State>>) {
                 };
                 let mut failed = false;
                 for (rv, t, obj) in &events {
-                    if chunk(&mut s, &json!({"type": t, "object": obj})).await.is_err() {
+                    let noisy = st.lock().unwrap().noise_after.contains(rv);
+                    let r = if noisy { chunk2(&mut s, &json!({"type": t, "object": obj}), &error_event()).await } else { chunk(&mut s, &json!({"type": t, "object": obj})).await };
+                    if r.is_err() {
                         failed = true;
                         break;
                     }
@@ -375,6 +419,13 @@ async fn serve(mut s: TcpStream, st: Arc<Mutex<State>>) {
                     break true;
                 }
                 match cmd {
+                    Some(Cmd::Noise) => {
+                        if chunk(&mut s, &error_event()).await.is_err() {
+                            finish(&st, my_gen, true);
+                            break true;
+                        }
+                        st.lock().unwrap().cmds_done += 1;
+                    }
                     Some(Cmd::Reset) => {
                         #[allow(deprecated)]
                         let _ = s.set_linger(Some(Duration::ZERO)); // close() sends RST: the client sees a transport error
